@@ -18,11 +18,62 @@ namespace NipyVerif.C03
 
 abbrev Mat := List (List Rat)
 
-inductive Err | nifti | typeErr | indexErr | headerData
+/-- the `raise NiftiError` sites of nifti_ref.py, in source order (`Gen/C03Tables.lean` is the
+    list regenerated from the source text; `Props/C03` proves the two lists equal) -/
+inductive Site
+  | reorder            -- nipy2nifti: `as_xyz_image` failed
+  | spaceCoupled       -- nipy2nifti: non-space axes not orthogonal to space
+  | nonspaceCoupled    -- nipy2nifti: non-space axes not orthogonal to each other
+  | world              -- nipy2nifti: image world not a NIFTI world
+  | unknownAffine      -- nipy2nifti: world 'unknown' but affine not the header's base affine
+  | tooMany            -- nipy2nifti: more than 4 non-spatial axes
+  | tooManyNoTime      -- nipy2nifti: 4 non-spatial axes and no time-like axis
+  | timeNoOutput       -- nipy2nifti: 't' offset but no matching output axis
+  | tlBothUnmatched    -- _find_time_like: name on both sides, input unmatched, output matched
+  | tlBothMismatch     -- _find_time_like: name on both sides, input matches another output
+  | tlInMatchesOther   -- _find_time_like: input name matches an output axis of another type
+  | tlOutMatchesOther  -- _find_time_like: output name matches an input axis of another type
+  | lt3d               -- nifti2nipy: fewer than 3 dimensions
+deriving DecidableEq, Repr
+
+def Site.all : List Site :=
+  [.reorder, .spaceCoupled, .nonspaceCoupled, .world, .unknownAffine, .tooMany, .tooManyNoTime,
+   .timeNoOutput, .tlBothUnmatched, .tlBothMismatch, .tlInMatchesOther, .tlOutMatchesOther, .lt3d]
+
+/-- the function holding the site -/
+def Site.fn : Site → String
+  | .tlBothUnmatched | .tlBothMismatch | .tlInMatchesOther | .tlOutMatchesOther => "_find_time_like"
+  | .lt3d => "nifti2nipy"
+  | _ => "nipy2nifti"
+
+/-- the leading literal text of the message raised at the site -/
+def Site.msg : Site → String
+  | .reorder => "Image cannot be reordered to XYZ because: \""
+  | .spaceCoupled => "Non space axes not orthogonal to space"
+  | .nonspaceCoupled => "Non space axes not orthogonal to each other"
+  | .world => "Image world not a NIFTI world"
+  | .unknownAffine => "Image world is 'unknown' but affine not compatible; please reset image world or affine"
+  | .tooMany => "Too many dimensions to convert"
+  | .tooManyNoTime => "Too many dimensions to convert"
+  | .timeNoOutput => "Time input and output do not match"
+  | .tlBothUnmatched => "Axis type '"
+  | .tlBothMismatch => "Axis type '"
+  | .tlInMatchesOther => "Axis type '"
+  | .tlOutMatchesOther => "Axis type '"
+  | .lt3d => "With less than 3 dimensions we cannot be sure which input and output dimensions you intend for the coordinate map.  Please fix this image with nibabel or some other tool"
+
+def Site.tag : Site → String
+  | .reorder => "reorder" | .spaceCoupled => "spaceCoupled" | .nonspaceCoupled => "nonspaceCoupled"
+  | .world => "world" | .unknownAffine => "unknownAffine" | .tooMany => "tooMany"
+  | .tooManyNoTime => "tooManyNoTime" | .timeNoOutput => "timeNoOutput"
+  | .tlBothUnmatched => "tlBothUnmatched" | .tlBothMismatch => "tlBothMismatch"
+  | .tlInMatchesOther => "tlInMatchesOther" | .tlOutMatchesOther => "tlOutMatchesOther" | .lt3d => "lt3d"
+
+inductive Err | nifti (s : Site) | typeErr | indexErr | headerData
 deriving DecidableEq, Repr
 
 def Err.str : Err → String
-  | .nifti => "error:niftiError"
+  | .nifti s => "error:niftiError " ++ s.tag
   | .typeErr => "error:typeError"
   | .indexErr => "error:indexError"
   | .headerData => "error:HeaderDataError"
@@ -58,9 +109,15 @@ def name2xyz (strict : Bool) (s : String) : Option Nat :=
       if strict then none
       else if s = "x" then some 0 else if s = "y" then some 1 else if s = "z" then some 2 else none
 
-/-- stable `np.argsort` of small integer keys -/
+/-- insertion after every entry whose key is not larger (keeps equal keys in arrival order) -/
+def insertKey (p : Nat × Nat) : List (Nat × Nat) → List (Nat × Nat)
+  | [] => [p]
+  | q :: rest => if q.1 ≤ p.1 then q :: insertKey p rest else p :: q :: rest
+
+/-- stable `np.argsort` of small integer keys (insertion sort: structural, so closed examples
+    evaluate in the kernel) -/
 def argsort (keys : List Nat) : List Nat :=
-  (keys.zipIdx.mergeSort (fun a b => a.1 ≤ b.1)).map (·.2)
+  (keys.zipIdx.foldl (fun acc p => insertKey p acc) []).map (·.2)
 
 /-- `xyz_order`: `none` = `AxesError` -/
 def xyzOrder (strict : Bool) (names : List String) : Option (List Nat) :=
@@ -191,8 +248,8 @@ def findTLLoop (inames onames : List (Option String)) (in2out out2in : List (Opt
         let sameOut := o + 3
         let corrIn := out2in.getD sameOut none
         match corrOut with
-        | none => if corrIn.isSome then .error .nifti else .ok (some ⟨inAx, none, name⟩)
-        | some co => if co ≠ sameOut then .error .nifti else .ok (some ⟨inAx, some co, name⟩)
+        | none => if corrIn.isSome then .error (.nifti .tlBothUnmatched) else .ok (some ⟨inAx, none, name⟩)
+        | some co => if co ≠ sameOut then .error (.nifti .tlBothMismatch) else .ok (some ⟨inAx, some co, name⟩)
       | none =>
         match corrOut with
         | none => .error .typeErr            -- `None - 3`
@@ -200,7 +257,7 @@ def findTLLoop (inames onames : List (Option String)) (in2out out2in : List (Opt
           match pyIndex onames ((co : Int) - 3) with
           | none => .error .indexErr
           | some none => .ok (some ⟨inAx, some co, name⟩)
-          | some (some _) => .error .nifti
+          | some (some _) => .error (.nifti .tlInMatchesOther)
     | none =>
       match onames.idxOf? (some name) with
       | some o =>
@@ -211,7 +268,7 @@ def findTLLoop (inames onames : List (Option String)) (in2out out2in : List (Opt
           match pyIndex inames ((ia : Int) - 3) with
           | none => .error .indexErr
           | some none => .ok (some ⟨ia, some outAx, name⟩)
-          | some (some _) => .error .nifti
+          | some (some _) => .error (.nifti .tlOutMatchesOther)
       | none => findTLLoop inames onames in2out out2in rest
 
 def findTimeLike (orient : Mat → List (Option Nat)) (fix : Bool) (g : Img) : Except Err (Option TL) :=
@@ -270,12 +327,12 @@ def spaceCodes (strict : Bool) (sq : Rat → Rat) (g : Img) (xyz : Mat) : Except
   | some p => .ok (p.2, p.2)
   | none =>
     if !strict && names == ["x", "y", "z"] then .ok (1, 1)
-    else if !inSpace names "unknown" then .error .nifti
+    else if !inSpace names "unknown" then .error (.nifti .world)
     else if 7 < g.shape.length then .error .headerData   -- `hdr.set_data_shape(img.shape)` (nibabel)
     else
       let z := (List.range 3).map (fun c =>
         sq (((List.range 3).map (fun r => entry xyz r c * entry xyz r c)).sum))
-      if matClose xyz (baseAffine g.shape z) then .ok (0, 0) else .error .nifti
+      if matClose xyz (baseAffine g.shape z) then .ok (0, 0) else .error (.nifti .unknownAffine)
 
 /-- more than one entry above `TINY` in a row or a column of the non-spatial block -/
 def nspCoupled (g : Img) : Bool :=
@@ -329,32 +386,32 @@ def timeHdr (g : Img) (h0 : Hdr) (pix : List Rat) (tl : TL) : Hdr :=
 /-- the part of `nipy2nifti` after `_find_time_like` -/
 def finish (g : Img) (h0 : Hdr) (pix : List Rat) : Except Err (Option TL) → Except Err Hdr
   | .error e => .error e
-  | .ok none => if g.n - 3 = 4 then .error .nifti else .ok (noTimeHdr g h0 pix)
+  | .ok none => if g.n - 3 = 4 then .error (.nifti .tooManyNoTime) else .ok (noTimeHdr g h0 pix)
   | .ok (some tl) =>
-      if tl.name = "t" ∧ anyTrans g = true ∧ tl.outAx = none then .error .nifti
+      if tl.name = "t" ∧ anyTrans g = true ∧ tl.outAx = none then .error (.nifti .timeNoOutput)
       else .ok (timeHdr g h0 pix tl)
 
 /-- the body of `nipy2nifti` once `as_xyz_image` has produced `g` -/
 def body (strict fix : Bool) (orient : Mat → List (Option Nat)) (sq : Rat → Rat) (g : Img) :
     Except Err Hdr :=
-  if !spaceDecoupled g then .error .nifti
-  else if nspCoupled g then .error .nifti
+  if !spaceDecoupled g then .error (.nifti .spaceCoupled)
+  else if nspCoupled g then .error (.nifti .nonspaceCoupled)
   else
     match xyzAffine strict orient g with
-    | none => .error .nifti      -- not reachable after `as_xyz_image`; the call is in the code
+    | none => .error (.nifti .reorder)      -- not reachable after `as_xyz_image`; the call is in the code
     | some xyz =>
       match spaceCodes strict sq g xyz with
       | .error e => .error e
       | .ok (sf, qf) =>
         if g.n - 3 = 0 then .ok (header0 g xyz sf qf)
-        else if g.n - 3 > 4 then .error .nifti
+        else if g.n - 3 > 4 then .error (.nifti .tooMany)
         else finish g (header0 g xyz sf qf) (pixdims sq g) (findTimeLike orient fix g)
 
 /-- `nipy2nifti` -/
 def nipy2nifti (strict fix : Bool) (orient : Mat → List (Option Nat)) (sq : Rat → Rat) (g : Img) :
     Except Err Hdr :=
   match asXyzImage strict orient g with
-  | none => .error .nifti
+  | none => .error (.nifti .reorder)
   | some x => body strict fix orient sq x
 
 /-! ### `nifti2nipy` -/
@@ -383,7 +440,7 @@ def productAffine (xyz : Mat) (zooms trans : List Rat) : Mat :=
 
 def nifti2nipy (h : Hdr) : Except Err Img :=
   let ndim := h.shape.length
-  if ndim < 3 then .error .nifti
+  if ndim < 3 then .error (.nifti .lt3d)
   else
     let world := if h.sform ≠ 0 then codeSpace h.sform else codeSpace h.qform
     let in3 := setName (setName (setName ["i", "j", "k"] h.freq "freq") h.phase "phase") h.slice "slice"
